@@ -144,7 +144,9 @@ class Batch:
             # the worker died: attribute to the seed in progress
             kind = classify_crash(err)
             with self.lock:
-                self.crashes.append({"kind": kind, "begin": last_begin, "rc": rc, "stderr": err[-6000:]})
+                m = re.search(r"^(panic: .*|fatal error: .*)$", err, re.M)
+                head = err[m.start():m.start() + 3500] if m else err[:2000]
+                self.crashes.append({"kind": kind, "begin": last_begin, "rc": rc, "stderr": head + "\n...\n" + err[-1500:], "panic_line": m.group(1) if m else "?"})
             restarts += 1
             if last_begin is None or restarts > 20:
                 return
@@ -424,7 +426,7 @@ def main():
 
         for b, c in crash_viol[:1] if crash_viol else []:
             vals, rc, err = trace_crash(b, c["begin"], scratch)
-            v = {"prop": prop, "rule": "crash", "msg": "taskctl panicked: " + (re.search(r"^(panic: .*|fatal error: .*)$", c["stderr"], re.M) or [None, "?"])[1], "seq": 0}
+            v = {"prop": prop, "rule": "crash", "msg": "taskctl panicked: " + c.get("panic_line", "?"), "seq": 0}
             k = known_match(prop, v, known)
             if k:
                 known_hits[k["id"]] = (k, known_hits.get(k["id"], (k, 0))[1] + len(crash_viol))
